@@ -172,6 +172,11 @@ func (v *Verifier) VerifyFunc(fn *ssa.Function, opts UnitOpts, so *SolveOpts) *U
 			ok := !eff.all && !eff.heaps[k]
 			goal := False
 			desc := "no store, append, copy or map update anywhere in this function or its callees targets " + k
+			if k == "globals" {
+				// `nowrite globals`: no package-level variable is written by the function or its callees
+				ok = !eff.all && !eff.globals
+				desc = "no package-level variable is written anywhere in this function or its callees"
+			}
 			if ok {
 				goal = True
 			} else if eff.all {
